@@ -715,6 +715,39 @@ def r_transfer_flags(ctx):
     else:
         ctx.violation('Serializer.getTransmissionData:last-flag', g.loc(lasts[0].ast) if lasts else g.loc(),
                       'the last-chunk flag is not "the read returned nothing" / the finished transfer is not forgotten: the leader re-sends or never finishes the snapshot', instance=inst)
+    # the receiving side: the dump is loaded (and the transfer acknowledged) only on the edge on which the receiver
+    # reported the snapshot complete
+    from .raftlog import install_nodes, ae_region
+    R = ctx.R
+    info = ae_region(ctx)
+    hex_, hcfg = info['ex'], info['ex'].cfg
+    h = R.handler
+    for inode in install_nodes(ctx, hex_):
+        inst = 'snapshot installed only when the receiver reported it complete'
+        ctx.tick()
+        guards = [n for n in hcfg.nodes if n.kind == 'cond' and any(isinstance(c, ast.Call) and isinstance(c.func, ast.Attribute) and c.func.attr == 'setTransmissionData'
+                                                                       for c in ast.walk(n.ast))]
+        # also `done = serializer.setTransmissionData(..)` followed by `if done:`
+        for n in hcfg.nodes:
+            if n.kind == 'cond' and isinstance(n.ast, ast.Name):
+                v = U.single_assign_value(h, n.ast.id)
+                if isinstance(v, ast.Call) and isinstance(v.func, ast.Attribute) and v.func.attr == 'setTransmissionData':
+                    guards.append(n)
+        okg = False
+        for gnode in guards:
+            tt = [d for d, l in gnode.succ if l == ('cond', True)]
+            ff = [d for d, l in gnode.succ if l == ('cond', False)]
+            via_t = bool(tt) and inode.id in hcfg.reachable_from(tt[0], avoid=[gnode.id])
+            via_f = bool(ff) and inode.id in hcfg.reachable_from(ff[0], avoid=[gnode.id])
+            around = inode.id in hcfg.reachable_from(info['entry'], avoid=[gnode.id])
+            if via_t and not via_f and not around:
+                okg = True
+        if okg:
+            ctx.ok(inst, h.loc(inode.ast), 'dominated by the true edge of setTransmissionData(..)')
+        else:
+            ctx.violation('%s:snapshot-installed-before-complete' % h.qualname, h.loc(inode.ast),
+                          'the dump is loaded with clearJournal=True on a path that is not the "transfer complete" edge of setTransmissionData(): after the first chunk of a '
+                          'multi-chunk transfer the node replaces its log by whatever dump file it has and acknowledges the snapshot', instance=inst)
     ctx.expect_min(3)
 
 
